@@ -153,6 +153,12 @@ type State struct {
 	nframes  *int
 	readonly map[string]bool
 	notes    []string
+	borrowed []borrowedMem
+}
+
+type borrowedMem struct {
+	base, off, ln *Term
+	what          string
 }
 
 func (st *State) clone() *State {
@@ -170,6 +176,7 @@ func (st *State) clone() *State {
 		nframes:  st.nframes,
 		readonly: st.readonly,
 		notes:    st.notes,
+		borrowed: st.borrowed,
 	}
 	for k, v := range st.cells {
 		n.cells[k] = v
@@ -295,6 +302,15 @@ func (fv *FuncVer) setRootValue(st *State, l *Loc, v Val) {
 	case rootElems:
 		if st.readonly[l.Ref.String()] {
 			panic(unsupported("store through a read-only byte view of an opaque array"))
+		}
+		for _, b := range st.borrowed {
+			// a store into the live part [off, off+len) of memory borrowed from a callee
+			goal := Not(Eq(l.Ref, b.base))
+			if len(l.Path) > 0 && l.Path[0].Index != nil {
+				idx := l.Path[0].Index
+				goal = Or(goal, fv.ctx.WLt(idx, b.off), fv.ctx.WLe(fv.ctx.WAdd(b.off, b.ln), idx))
+			}
+			fv.oblige(st, "borrowed-write", fv.anchorAt(fv.curPos(st), "store"), fv.curPos(st), goal, "no store into memory borrowed from "+b.what)
 		}
 		key, s := fv.elemsKey(l.Typ)
 		st.heaps[key] = fv.ctx.Name("h", Store(fv.heap(st, key, s), l.Ref, fv.term(v)))
